@@ -346,6 +346,7 @@ func runC18(c *Ctx) {
 		NotGuarded: map[fieldKey]string{
 			{mlT, "closed"}:     "written under the lock before the go statement and read only by that goroutine, which is joined before the next write",
 			{mlT, "lastGCDone"}: "touched only by the single checker goroutine (and tests)",
+			{mlT, "ticker"}:     "same discipline as `closed`: (re)armed or replaced under the lock before the go statement, read only by that goroutine, which the last Shutdown joins before the next Start can write",
 		},
 		Structs: []*types.Named{mlT},
 	}
@@ -456,6 +457,7 @@ func runC18(c *Ctx) {
 		c.Check(dec, "Shutdown releases one reference", p.Pos(shutFn.Pos()), "refCounter--", "counter not decremented")
 	}
 	runC18More(c)
+	runC18TickerRearm(c)
 }
 
 func runC18Wiring(c *Ctx) {
